@@ -322,9 +322,69 @@ def run_single_site(unit, rng, ctx):
     ctx.case(signature(m, site, pos), tr is not None, sample={'lattice': kind, 'single_site': site, 'radius': R, 'inner_fraction': f, 'T': T})
 
 
+def run_large_radius(unit, rng, ctx):
+    """A cell with one short edge and site radii LARGER than half of it (the sphere reaches across the cell into its
+    own periodic image; the assignment is still defined by the minimum-image distance)."""
+    from pymatgen.core import Lattice, Structure
+
+    a = float(rng.uniform(3.0, 3.6))
+    b, c = (float(x) for x in rng.uniform(10.0, 12.0, size=2))
+    ax = int(rng.integers(3))
+    lens = [b, c, b]
+    lens[ax] = a
+    lens[(ax + 1) % 3], lens[(ax + 2) % 3] = b, c
+    ang = [90.0, 90.0, 90.0]
+    if rng.integers(2):
+        ang[ax] = float(rng.choice([80.0, 100.0]))  # the angle between the two long edges
+    m = geom.matrix_from_parameters(*lens, *ang)
+    rot = bool(rng.integers(2))
+    if rot:
+        m = m @ geom.random_rotation(rng).T
+    inv = np.linalg.inv(m)
+    R = float(rng.uniform(0.52, 0.68) * a)
+    f = float(rng.choice([1.0, 0.97]))
+    S = int(rng.integers(1, 3))
+    site = np.zeros((S, 3))
+    site[:, ax] = rng.uniform(0, 1, size=S)
+    site[:, (ax + 1) % 3] = (np.array([0.2, 0.7])[:S] + rng.uniform(-0.03, 0.03, size=S)) % 1
+    site[:, (ax + 2) % 3] = rng.uniform(0, 1, size=S)
+    dss = geom.min_image(m, site, site)
+    if S == 2 and dss[0, 1] < 2 * R + 0.5:
+        raise Skip('sites too close for the large radius')
+    T, nLi = int(rng.integers(8, 30)), int(rng.integers(1, 4))
+    which = rng.integers(S, size=(T, nLi))
+    rad = rng.uniform(0, 1.35 * R, size=(T, nLi))
+    pos = np.mod(site[which] + (gen.random_unit_vectors(rng, T * nLi).reshape(T, nLi, 3) * rad[..., None]) @ inv, 1)
+    pos[pos == 1] = 0
+    labels = ['A', 'B'][:S]
+    arg = {lb: R for lb in labels} if rng.integers(2) else R
+    traj = gen.make_trajectory(m, gen.species_objects(['Li'] * nLi + ['S'], rng=rng), np.concatenate([pos, np.full((T, 1, 3), 0.41)], axis=1))
+    sites = Structure(lattice=Lattice(m), species=['Li'] * S, coords=site, labels=labels)
+    what = f'short edge {a:.2f} A (axis {ax}){"/rot" if rot else ""} sites={S} R={R:.3f} (> half the short edge) f={f}'
+    wit = {'matrix': m, 'site_frac': site, 'site_radius': arg, 'inner_fraction': f}
+    with warnings.catch_warnings():
+        warnings.simplefilter('ignore')
+        try:
+            tr = traj.transitions_between_sites(sites=sites, floating_specie='Li', site_radius=arg, site_inner_fraction=f)
+        except ValueError as exc:
+            if 'need at least one array' in str(exc):
+                ctx.count('static_history_no_events')
+                ctx.case(None, False)
+                return
+            raise
+    dmin = geom.min_image(m, pos.reshape(-1, 3), site)
+    beyond = int(np.sum((dmin.min(axis=1) > 0.5 * a) & (dmin.min(axis=1) < R - BAND)))
+    check_assignment(ctx, what, m, pos, site, np.full(S, R), f, np.asarray(tr.states), np.asarray(tr.inner_states), True, R, wit, labels if isinstance(arg, dict) else None)
+    ctx.count('large_radius_cases')
+    ctx.count('atom_frames_inside_a_site_but_farther_than_half_the_short_edge', beyond)
+    ctx.case(signature(m, site, pos), beyond > 0, sample={'short_edge': a, 'radius': R, 'inner_fraction': f, 'sites': S, 'atom_frames_beyond_half_edge': beyond})
+
+
 def run_unit(unit, rng, ctx):
     if unit['i'] % 60 == 59:
         return run_many(unit, rng, ctx)
+    if unit['i'] % 60 in (14, 44):
+        return run_large_radius(unit, rng, ctx)
     if unit['i'] % 60 == 29:
         return run_single_site(unit, rng, ctx)
     mode = str(rng.choice(['float', 'dict', 'auto', 'overlap', 'auto_small'], p=[0.33, 0.33, 0.14, 0.1, 0.1]))
